@@ -487,38 +487,61 @@ func permute(l []string, f func([]string)) {
 
 func groups(thorough bool) []*Group {
 	var out []*Group
-	concs := []int{0, 2, -1}
-	if thorough {
-		concs = []int{0, 1, 2, 3, -1}
+	nh := func(h string) int {
+		if h == "" {
+			return 0
+		}
+		return strings.Count(h, ",") + 1
 	}
-	canonical := map[string]bool{}
-	for _, h := range handlerLists(false) {
-		canonical[h] = true
-	}
-	for _, h := range handlerLists(thorough) {
-		for _, skip := range []bool{false, true} {
-			for _, prov := range []bool{false, true} {
-				for _, conc := range concs {
-					out = append(out, &Group{API: "walk", Skip: skip, H: h, Prov: prov, Conc: conc, N5: thorough && canonical[h] && conc != 1 && conc != 3})
+	if !thorough {
+		// 42 handler lists (every subset, canonical and reversed order) x SkipRoot x provider x 3 walkers
+		for _, h := range handlerLists(false) {
+			for _, skip := range []bool{false, true} {
+				for _, prov := range []bool{false, true} {
+					for _, conc := range []int{0, 2, -1} {
+						out = append(out, &Group{API: "walk", Skip: skip, H: h, Prov: prov, Conc: conc})
+					}
 				}
 			}
 		}
-	}
-	fetchH := []string{"", "IM", "IE", "OM", "OEs", "OEp", "OM,IM", "IM,OM", "OM,IE"}
-	fconcs := []int{0, 1, 2}
-	raws := []bool{false}
-	if thorough {
-		fetchH = handlerLists(false)
-		raws = []bool{false, true}
-	}
-	for _, h := range fetchH {
-		for _, skip := range []bool{false, true} {
-			for _, prov := range []bool{false, true} {
-				for _, conc := range fconcs {
-					for _, raw := range raws {
-						out = append(out, &Group{API: "fetch", Skip: skip, H: h, Prov: prov, Conc: conc, Raw: raw})
+		for _, h := range []string{"", "IM", "IE", "OM", "OEs", "OEp", "OM,IM", "IM,OM", "OM,IE"} {
+			for _, skip := range []bool{false, true} {
+				for _, prov := range []bool{false, true} {
+					for _, conc := range []int{0, 1, 2} {
+						out = append(out, &Group{API: "fetch", Skip: skip, H: h, Prov: prov, Conc: conc})
 					}
 				}
+			}
+		}
+		return out
+	}
+	// thorough: every ORDER of every handler subset (114 lists). Lists of up to
+	// two handlers get the full option product and the 5-node shapes; the 90
+	// orders of three and four handlers run without provider on the sequential
+	// walker and Concurrency(2).
+	for _, h := range handlerLists(true) {
+		if nh(h) <= 2 {
+			for _, skip := range []bool{false, true} {
+				for _, prov := range []bool{false, true} {
+					for _, conc := range []int{0, 2, 3, -1} {
+						out = append(out, &Group{API: "walk", Skip: skip, H: h, Prov: prov, Conc: conc, N5: conc != 3})
+					}
+				}
+			}
+			for _, skip := range []bool{false, true} {
+				for _, prov := range []bool{false, true} {
+					for _, conc := range []int{0, 1, 2} {
+						for _, raw := range []bool{false, true} {
+							out = append(out, &Group{API: "fetch", Skip: skip, H: h, Prov: prov, Conc: conc, Raw: raw})
+						}
+					}
+				}
+			}
+			continue
+		}
+		for _, skip := range []bool{false, true} {
+			for _, conc := range []int{0, 2} {
+				out = append(out, &Group{API: "walk", Skip: skip, H: h, Conc: conc})
 			}
 		}
 	}
